@@ -71,6 +71,24 @@ NOTES = {
     "C14_6": ("only no-failing-input-found at first run (facade queries were asked with zero arguments only, which no earlier lookup could have answered)",
               "harness/c14: every query that takes a hash is also asked with each hash the facade itself returned in healthy states (up to six: exit "
               "roots, L1 info roots, global exit roots ...); data from any of them while halted is data"),
+    "C04_5": ("MISSED at first run (equal deposits occurred, but no dropped fork repeated a whole surviving subtree)",
+              "harness/bridge: directed C04 history in which deposits 0,1 = (a, b) survive and deposits 2,3 = (a, b) plus one more are dropped, all "
+              "proofs of all surviving roots asked, then the new fork"),
+    "C06_6": ("MISSED by C06 at first run (caught by C05): the C06 harness always built the downloader on LatestBlock",
+              "harness/c06: free-running histories of a syncer on SafeBlock with finalized type FinalizedBlock (mode SF, separate random stream)"),
+    "C10_6": ("MISSED at first run (the prover's proof bytes were empty in one case out of 48 only)",
+              "harness/c10: two FEP cases whose aggchain proof has empty proof bytes (separate random stream)"),
+    "C15_6": ("MISSED by C15 and C11 at first run; the change is in the L1 info tree syncer (a leaf removed by a reorg is still served)",
+              "harness/l1info (C04 part): directed history whose reorg starts exactly at the newest leaf's block, the new fork carrying no leaf "
+              "up to the queried blocks => reported by C04 with a concrete failing input. C15's own harness runs the real syncer store "
+              "under the oracle on LINEAR L1 histories only: not reported by C15 (the oracle is right whenever the syncer's answers are, which "
+              "is what C04 checks after reorgs)"),
+    "C10_5": ("only no-failing-input-found by C10 at first run (caught concretely by C19): for certificates with anything non-canonical the wire was not compared",
+              "spec_wire (Model/C10Cases.v): also for non-canonical certificates the global index WORD of every imported exit on the wire must be "
+              "the number both commitments cover (GenerateGlobalIndex: a set mainnet flag clears the rollup index)"),
+    "C15_5": ("only no-failing-input-found at first run (a scripted L1 error failed every request of the tick, which hides a fallback to another request)",
+              "harness/c15: a tick can fail only the FIRST request to the L1 client (every second failing tick of the random stream, two boundary "
+              "cases with unfinalized roots above the finalized block and the syncer ahead)"),
     "C16_4": ("caught at first run by C16; MISSED by the GER-store part of C04",
               "C04 GER-store part: every query is now also asked right before each reorg"),
 }
